@@ -34,6 +34,13 @@ structure InvB (s : BSt) : Prop where
   lt : ∀ id, s.nextId ≤ id → tot s id = 0
   ua : UniqA s
 
+/-- `InvB` with `φ id` phantom occurrences of each id counted in addition (`φ = 0`: `InvB`; `φ` = indicator of one id:
+    that id is in use nowhere, although it lies below `nextId` — a discarded call) -/
+structure InvBφ (φ : Nat → Nat) (s : BSt) : Prop where
+  uniq : ∀ id, tot s id + φ id ≤ 1
+  lt : ∀ id, s.nextId ≤ id → tot s id + φ id = 0
+  ua : UniqA s
+
 theorem cntL_append (id : Nat) (l r : List Stmt) : cntL id (l ++ r) = cntL id l + cntL id r := by
   simp [cntL, List.countP_append]
 
